@@ -370,6 +370,7 @@ func init() {
 		}
 		checkStable(c, "C01", "decode", first)
 		gomaxprocsSweep(c, "C01", "decode")
+		firstCallsCheck(c, "C01")
 		c.res.sample(map[string]interface{}{"space": "srgb", "width": 16, "code": 32768, "bits": fmt.Sprintf("%#x", tables["srgb16"][32768])})
 		c.res.sample(map[string]interface{}{"space": "adobergb", "width": 8, "code": 128, "bits": fmt.Sprintf("%#x", tables["adobergb8"][128])})
 		c.res.sample(map[string]interface{}{"space": "prophotorgb", "width": 16, "code": 1000, "bits": fmt.Sprintf("%#x", tables["prophotorgb16"][1000])})
